@@ -55,6 +55,7 @@ EXTRA_TEXT = """C07X DEFINITIONS AUTOMATIC TAGS ::= BEGIN
   SS ::= SET OF INTEGER (0..255)
   FO ::= OCTET STRING (SIZE(3))
   I7 ::= INTEGER (0..7)
+  SV ::= SET OF INTEGER (0..7)
 END
 """
 # (type, DER of a value)
@@ -68,11 +69,12 @@ EXTRA_VALUES = [
     ("SS", "3100"), ("SS", "3109020105020103020104"),
     ("FO", "0403010203"), ("FO", "040401020304"), ("FO", "0400"),
     ("I7", "020105"), ("I7", "020109"), ("I7", "0201ff"),
+    ("SV", "3106020101020103"), ("SV", "3106020101020109"),
 ]
 
 
 def extra_module():
-    names = ["EO", "PO", "NU", "SN", "RC", "SS", "FO", "I7"]
+    names = ["EO", "PO", "NU", "SN", "RC", "SS", "FO", "I7", "SV"]
     return {"name": "C07X", "default": "AUTOMATIC", "defs": [(n, None) for n in names], "trees": {}, "text": EXTRA_TEXT}
 
 
@@ -93,6 +95,21 @@ def oer_seq_with_preamble(text_or_tree):
     return False
 
 
+def has_setof(t):
+    k = t[0]
+    if k == "t":
+        return True
+    if k == "s":
+        return any(has_setof(m) for m in t[2])
+    if k == "c":
+        return any(has_setof(a) for a in t[1])
+    if k == "q":
+        return has_setof(t[3])
+    if k in ("x", "?"):
+        return has_setof(t[-1])
+    return False
+
+
 def has_null(t):
     k = t[0]
     if k == "n":
@@ -108,7 +125,8 @@ def has_null(t):
     return False
 
 
-EXTRA_TRAITS = {"EO": {"oerpre"}, "PO": {"oerpre"}, "NU": {"null"}, "SN": {"null"}, "RC": {"null"}, "SS": set(), "FO": set(), "I7": set()}
+EXTRA_TRAITS = {"EO": {"oerpre", "oerext"}, "PO": {"oerpre"}, "NU": {"null"}, "SN": {"null"}, "RC": {"null"}, "SS": {"setof"}, "SV": {"setof"},
+                "FO": set(), "I7": set()}
 
 
 def traits(m, tn):
@@ -120,6 +138,8 @@ def traits(m, tn):
         s.add("oerpre")
     if has_null(tree):
         s.add("null")
+    if has_setof(tree):
+        s.add("setof")
     return s
 
 
@@ -132,7 +152,8 @@ def violate(tree, v, rng):
     if k == "i":
         lo, hi, ext = tree[2], tree[3], tree[4]
         if not ext:
-            if lo is not None and lo - 1 >= -2**63:
+            # (an INTEGER with unsigned specifics reads the contents octet ff as 255: -1 is not expressible)
+            if lo is not None and lo - 1 >= -2**63 and not (lo >= 0 and (hi is None or hi >= 2**31)):
                 out.append(lo - 1)
             if hi is not None and hi + 1 < 2**63:
                 out.append(hi + 1)
@@ -188,6 +209,11 @@ def check_sweep(ctx, m, tn, der, syn, out, tr, model_bytes, label):
     rep = {"module": m["text"], "type": tn, "der": der, "syntax": syn, "command_line": line, "c": out[:1500], "label": label}
     segs = out.split(" | ")
     head = kv(segs[0])
+    if "DIED" in segs[0] and "sig=6" not in segs[0] and syn == "uper" and "setof" in tr and label != "valid":
+        # SET_OF__encode_sorted returned NULL (an element cannot be encoded) and the result is used unchecked
+        run.known_finding("C07-setof-uper-unencodable-element", line)
+        ctx.died.setdefault("C07-setof-uper-unencodable-element", []).append(dict(rep, k=-1, replay_cmd="trace %s der %s %s -1" % (tn, der, syn)))
+        return None
     if "DIED" in segs[0] or "ret" not in head:
         run.violation("crash:encode(%s)" % syn, dict(rep, what="the fault-free encoder call died or gave no result"))
         return None
@@ -222,15 +248,23 @@ def check_sweep(ctx, m, tn, der, syn, out, tr, model_bytes, label):
         off += s
     for k in range(n):
         run.case("%s k=%d" % (line, k))
-        seg = segs[1 + k] if 1 + k < len(segs) else "MISSING"
+        if 1 + k >= len(segs):
+            break                 # the child ended at an earlier k (already reported)
+        seg = segs[1 + k]
         d = kv(seg)
         rk = dict(rep, k=k, c=seg, replay_cmd="trace %s der %s %s %d" % (tn, der, syn, k))
         if "DIED" in seg:
             fid = None
-            if syn == "oer" and "oerpre" in tr and head["ret"] != "-1":
+            aborted = "sig=6" in seg
+            if aborted and syn == "oer" and "oerpre" in tr and ret >= 0 and ((k >= 1 and sizes[k - 1] == 0) or ("oerext" in tr and sizes[k] == 0)):
+                # the invocation after the zero-length one is asn_put_aligned_flush(&preamble), result ignored;
+                # extensible SEQUENCE: assert(ret == 0) right after the first asn_put_few_bits
                 fid = "C07-oer-sequence-preamble-flush"
-            elif syn == "der" and "null" in tr:
+            elif aborted and syn == "der" and "null" in tr and len(chunks[k]) >= 2 and chunks[k][-1] == 0 and not (chunks[k][0] & 0x20):
+                # the failing invocation is the TL of a NULL
                 fid = "C07-null-der-failed-type"
+            elif aborted and syn == "uper" and "setof" in tr and ret >= 0:
+                fid = "C07-setof-uper-put-failure-ignored"
             if fid:
                 ctx.died.setdefault(fid, []).append(rk)
                 run.known_finding(fid, rk["replay_cmd"])
@@ -239,7 +273,11 @@ def check_sweep(ctx, m, tn, der, syn, out, tr, model_bytes, label):
             continue
         want = "ret=-1 errno=EIO calls=%d d=%d:%s" % (k + 1, sum(sizes[:k]), fnv(b"".join(chunks[:k])))
         got = "ret=%s errno=%s calls=%s d=%s" % (d.get("ret"), d.get("errno"), d.get("calls"), d.get("d"))
-        if got != want:
+        if got != want and syn == "oer" and "oerpre" in tr and k >= 1 and sizes[k - 1] == 0 and d.get("ret") == "-1" and d.get("errno") == "EIO" \
+           and int(d.get("calls", "0")) > k + 1:
+            # same root cause without the abort: the value fails to encode later anyway, the encoder went on calling
+            run.known_finding("C07-oer-sequence-preamble-flush", rk["replay_cmd"])
+        elif got != want:
             run.violation("oracle:cb_failure_eio(%s)" % syn, dict(rk, what="callback failing at invocation %d: expected [%s] got [%s]" % (k, want, got)))
         run.count("cbfail_%s" % syn)
     return ret, chunks
@@ -315,8 +353,8 @@ def check_battery(ctx, m, tn, line, out, kindhint=None):
         run.count("partial_%s_%s" % (kind, syn))
         if "DIED" in seg:
             fid = None
-            if kind == "ZERO" or kind == "ZEROPRIM":
-                fid = None
+            if kind == "ELNULL" and syn in ("uper", "oer"):
+                fid = "C07-of-null-element"
             if fid:
                 run.known_finding(fid, line)
             else:
